@@ -15,7 +15,7 @@ zck_delta_size in both argument orders, zck_gen_zdict, zckdl -s <file> against a
 Oracle: in a forked child under ASan+UBSan with an alarm: no sanitizer report, no fatal signal, no timeout (confirmed
 with ten times the limit).  Any return value is acceptable.
 """
-import itertools
+import itertools, os
 import core, zckref, universe
 from universe import Cfg
 from zckref import Chunk, enc_ci
@@ -205,6 +205,17 @@ def payload_mutants(ctx):
     return out
 
 
+def _hang_marker(key):
+    """one confirmed hang per (tool / operation) is enough: the ten-fold re-run costs 100 s, and a change that makes a tool spin
+    makes it spin on hundreds of files.  The first confirmation leaves a marker (per run: the parent's pid) that the other
+    worker processes see; later time-outs of the same kind are reported without being confirmed again (same signature)."""
+    import hashlib, os
+    d = os.path.join(core.VERIF, "build", "tmp")
+    os.makedirs(d, exist_ok=True)
+    return os.path.join(d, "hang-%d-%s" % (os.getppid() if core.mp.current_process().name != "MainProcess" else os.getpid(),
+                                           hashlib.sha1(key.encode()).hexdigest()[:12]))
+
+
 def work(arg):
     peer, items, seqs, timeout_ms = arg   # items: (label, klass, bytes)
     job = ["peer %s" % peer.hex(), "chunk 32", "timeout %d" % timeout_ms]
@@ -225,11 +236,14 @@ def work(arg):
             res["outcomes"].add(z["opened"])
             continue
         st = c.status()
-        if st["timeout"] and timeout_ms < 100000:
+        a = c.all("A")
+        hkey = "api:" + (seqs[int(a[-1]["seq"])].split(",")[0] if a else "?")
+        if st["timeout"] and timeout_ms < 100000 and not os.path.exists(_hang_marker(hkey)):
             r2 = work((peer, [(label, klass, b)], seqs, timeout_ms * 10))
             res["viol"] += r2["viol"]
+            if any(v[0]["predicate"] == "hang" for v in r2["viol"]):
+                open(_hang_marker(hkey), "w").close()
             continue
-        a = c.all("A")
         seq = seqs[int(a[-1]["seq"])] if a else "?"
         site = ""
         for ln in st["san"].split("\n"):
@@ -275,9 +289,12 @@ def work_tools(arg):
         if clean or aborted or (l is not None and l["sig"] == "6" and st["san"] == ""):
             res["outcomes"].add((tool, l["exit"] if l else "?"))
             continue
-        if st["timeout"] and timeout_ms < 100000:
+        hkey = "tool:%s %s" % (tool, " ".join(a for a in args if a.startswith("-")))
+        if st["timeout"] and timeout_ms < 100000 and not os.path.exists(_hang_marker(hkey)):
             r2 = work_tools((peer, [(label, klass, b)], [(tool, args)], timeout_ms * 10))
             res["viol"] += r2["viol"]
+            if any(v[0]["predicate"] == "hang" for v in r2["viol"]):
+                open(_hang_marker(hkey), "w").close()
             continue
         site = ""
         for ln in st["san"].split("\n"):
@@ -292,6 +309,9 @@ def work_tools(arg):
 
 
 def run(ctx):
+    import glob
+    for f in glob.glob(os.path.join(core.VERIF, "build", "tmp", "hang-%d-*" % os.getpid())):
+        os.remove(f)
     thorough = ctx.tier == "thorough"
     peer = universe.ref_file("abc", Cfg(2, b"", 0, 3, 1), ctx.seed)
     B = bases(ctx)
